@@ -61,6 +61,7 @@ def handle (req : Json) : Json :=
         -- the bridge to the shared program model (C01): the emission as a `Prog.EGraph`
         ("bridge_valid", let q := Bridge.toProg p b.argsOf
                          Prog.validG q.nodes (Bridge.toEGraph p b) q.main []),
+        ("leak_free", Bridge.leakFreeB p b),
         ("bridge_wf", Prog.wfCheck (Bridge.toProg p b.argsOf).nodes),
         ("bridge_same_emission", decide (Bridge.flatG (Bridge.toEGraph p b) = Bridge.flatTrace tr))]
 
